@@ -136,6 +136,7 @@ type rewriter struct {
 	needVmap  bool
 	recv2     map[*ast.UnaryExpr]bool
 	makeChan  map[*ast.CallExpr]ast.Expr
+	makeNamed map[*ast.CallExpr]ast.Expr // make(T, n) with a named channel type T
 	closeCh   map[*ast.CallExpr]bool
 	rangeK    map[*ast.RangeStmt]string // "chan" | "map"
 	readdir   map[*ast.CallExpr]bool
@@ -189,7 +190,7 @@ func rewritePackage(dir string, feat *features, overlay map[string]string) (int,
 	total := 0
 	for i, f := range files {
 		r := &rewriter{fset: fset, info: info, feat: feat, pkgDir: dir,
-			recv2: map[*ast.UnaryExpr]bool{}, makeChan: map[*ast.CallExpr]ast.Expr{}, closeCh: map[*ast.CallExpr]bool{},
+			recv2: map[*ast.UnaryExpr]bool{}, makeChan: map[*ast.CallExpr]ast.Expr{}, makeNamed: map[*ast.CallExpr]ast.Expr{}, closeCh: map[*ast.CallExpr]bool{},
 			rangeK: map[*ast.RangeStmt]string{}, readdir: map[*ast.CallExpr]bool{}, lenCap: map[*ast.CallExpr]string{}, inSelect: map[ast.Node]bool{}}
 		changed := r.rewriteFile(f)
 		if len(r.errs) > 0 {
@@ -376,6 +377,12 @@ func (r *rewriter) rewriteFile(f *ast.File) bool {
 
 	pre := func(c *astutil.Cursor) bool {
 		switch n := c.Node().(type) {
+		case *ast.TypeSpec:
+			// a named channel type becomes an alias of the shim channel type (a defined pointer type would
+			// lose the channel methods)
+			if _, ok := n.Type.(*ast.ChanType); ok && r.feat.sched && !n.Assign.IsValid() {
+				n.Assign = n.Name.End()
+			}
 		case *ast.SelectStmt:
 			if r.feat.sched {
 				for _, st := range n.Body.List {
@@ -424,7 +431,22 @@ func (r *rewriter) rewriteFile(f *ast.File) bool {
 				case r.isBuiltin(id, "make") && len(n.Args) >= 1 && r.isChan(n):
 					ct, ok := n.Args[0].(*ast.ChanType)
 					if !ok {
-						r.errorf(n, "make of a named channel type")
+						// make(T) with a named channel type T: T(csched.MakeChan[elem](n)), the element type
+						// printed from the type checker's view
+						ch := r.info.TypeOf(n).Underlying().(*types.Chan)
+						src := types.TypeString(ch.Elem(), func(p *types.Package) string {
+							if tn, ok := r.info.TypeOf(n).(*types.Named); ok && tn.Obj().Pkg() == p {
+								return ""
+							}
+							return p.Name()
+						})
+						elem, err := parser.ParseExpr(src)
+						if err != nil {
+							r.errorf(n, "make of a named channel type whose element type %q cannot be written here", src)
+						} else {
+							r.makeChan[n] = elem
+							r.makeNamed[n] = n.Args[0]
+						}
 					} else {
 						r.makeChan[n] = ct.Value
 					}
@@ -453,22 +475,36 @@ func (r *rewriter) rewriteFile(f *ast.File) bool {
 			if !r.feat.sched {
 				break
 			}
-			for _, a := range n.Call.Args {
+			// the arguments of a go statement are evaluated by the caller: hoist every argument that is not a
+			// plain name, literal or selector into a temporary
+			var hoist []ast.Stmt
+			if n.Call.Ellipsis != token.NoPos {
+				r.errorf(n, "go statement with a variadic spread argument")
+			}
+			for i, a := range n.Call.Args {
 				switch a.(type) {
 				case *ast.Ident, *ast.BasicLit, *ast.SelectorExpr:
 				default:
-					r.errorf(n, "go statement with a non-trivial argument expression")
+					r.uniq++
+					tmp := ast.NewIdent(fmt.Sprintf("zvGo%d", r.uniq))
+					hoist = append(hoist, &ast.AssignStmt{Lhs: []ast.Expr{tmp}, Tok: token.DEFINE, Rhs: []ast.Expr{a}})
+					n.Call.Args[i] = tmp
 				}
 			}
 			r.needCS = true
 			r.sites++
-			c.Replace(&ast.ExprStmt{X: &ast.CallExpr{
+			goCall := &ast.ExprStmt{X: &ast.CallExpr{
 				Fun: sel("csched", "Go"),
 				Args: []ast.Expr{&ast.FuncLit{
 					Type: &ast.FuncType{Params: &ast.FieldList{}},
 					Body: &ast.BlockStmt{List: []ast.Stmt{&ast.ExprStmt{X: n.Call}}},
 				}},
-			}})
+			}}
+			if len(hoist) == 0 {
+				c.Replace(goCall)
+			} else {
+				c.Replace(&ast.BlockStmt{List: append(hoist, goCall)})
+			}
 		case *ast.SelectStmt:
 			if r.feat.sched {
 				r.rewriteSelect(c, n)
@@ -501,10 +537,14 @@ func (r *rewriter) rewriteFile(f *ast.File) bool {
 				// n.Args[0] has already been rewritten to *csched.Chan[T]; take T from the original
 				r.needCS = true
 				r.sites++
-				c.Replace(&ast.CallExpr{
+				var mk ast.Expr = &ast.CallExpr{
 					Fun:  &ast.IndexExpr{X: sel("csched", "MakeChan"), Index: elem},
 					Args: []ast.Expr{size},
-				})
+				}
+				if named, ok := r.makeNamed[n]; ok {
+					mk = &ast.CallExpr{Fun: named, Args: []ast.Expr{mk}}
+				}
+				c.Replace(mk)
 			} else if name, ok := r.lenCap[n]; ok {
 				r.sites++
 				m := "Len"
